@@ -55,8 +55,9 @@ void check_generated(vh::Ctx& c, const std::vector<double>& x, double a, double 
   for (unsigned k = 0; k + 1 < nx; k++) if (!(x[k] <= x[k + 1])) { c.violation("C17:grid:" + sc + ":decreasing", what + vh::fmt(" x[%u]=%.17g > x[%u]=%.17g", k, x[k], k + 1, x[k + 1])); return; }
   if (x[0] != a && !(logscale && ulps(x[0], a) <= 2)) { c.violation("C17:grid:" + sc + ":wrong-first-node", what + vh::fmt(" x[0]=%.17g", x[0])); }
   // "a few units in the last place": exp(log(b)) carries the rounding of log b, amplified by |log b|
-  double lim = logscale ? 8 + 2 * std::max(std::fabs(std::log(a)), std::fabs(std::log(b))) : 4;
-  double ue = ulps(x[nx - 1], b);
+  double lim = logscale ? 8 + 4 * std::max(std::fabs(std::log(a)), std::fabs(std::log(b))) : 4;
+  // linear: a + (b-a) is rounded at the magnitude of max(|a|,|b|), so that is where the "last place" is
+  double ue = logscale ? ulps(x[nx - 1], b) : std::fabs(x[nx - 1] - b) / (std::nextafter(std::max(std::fabs(a), std::fabs(b)), INFINITY) - std::max(std::fabs(a), std::fabs(b)));
   c.worst("last_node_ulps." + sc, ue / lim);
   if (!(ue <= lim)) c.violation("C17:grid:" + sc + ":wrong-last-node", what + vh::fmt(" x[nx-1]=%.17g requested %.17g (%.1f ulps, allowed %.1f)", x[nx - 1], b, ue, lim));
   // equal spacing in x / log x: every node against the documented formula
